@@ -64,6 +64,13 @@ def find_function(tree, qualname):
     return node
 
 
+def expect_decorators(f, expected, what):
+    """a decorator changes what a call means (a cached_property is not a property): the kernel's decorators are compared"""
+    got = [ast.unparse(d) for d in f.decorator_list]
+    if got != list(expected):
+        raise Untranslatable(f"{what}: decorators {got} instead of {list(expected)}")
+
+
 def strip_doc(body):
     if body and isinstance(body[0], ast.Expr) and isinstance(body[0].value, ast.Constant) and isinstance(body[0].value.value, str):
         return body[1:]
@@ -111,6 +118,8 @@ class Tr:
             return "one"
         if v == 0.5:
             return "half"
+        if isinstance(v, int) and 1 < v < 10**6:
+            return f"(nint N {v})"
         raise Untranslatable(f"constant {v!r}")
 
     def num(self, e):
@@ -433,7 +442,10 @@ def src(path):
 
 def helpers_from(path, cls, names):
     tree = ast.parse(src(path))
-    return {n: find_function(tree, f"{cls}.{n}") for n in names}
+    out = {n: find_function(tree, f"{cls}.{n}") for n in names}
+    for n, f in out.items():
+        expect_decorators(f, ["staticmethod"], f"{cls}.{n}")
+    return out
 
 
 HEADER_Z = """(* GENERATED by harness/translate.py from {path} ({qual}), sha256 of the function source {sha}.
@@ -471,6 +483,7 @@ def kernel_chronon(method):
     path = "mutwo/core_events/basic.py"
     text = src(path)
     f = find_function(ast.parse(text), f"Chronon.{method}")
+    expect_decorators(f, [], f"Chronon.{method}")
     helpers = helpers_from("mutwo/core_events/abc.py", "Event", ["_assert_valid_absolute_time", "_assert_correct_start_and_end_values"])
     params = [ident(a.arg) for a in f.args.args if a.arg != "self"]
     tr = Tr("Z", helpers=helpers)
@@ -485,6 +498,7 @@ def kernel_index():
     path = "mutwo/core_events/basic.py"
     text = src(path)
     f = find_function(ast.parse(text), "Consecution._get_index_at_from_absolute_time_tuple")
+    expect_decorators(f, ["staticmethod"], "Consecution._get_index_at_from_absolute_time_tuple")
     params = [ident(a.arg) for a in f.args.args if a.arg != "self"]
     tr = Tr("Z", result="option", calls={"bisect.bisect_right": ("bisect_right_z", 2)})
     body = tr.block(strip_doc(f.body), lambda: (_ for _ in ()).throw(Untranslatable("function body falls off the end")))
@@ -501,6 +515,7 @@ def kernel_scale():
     path = "mutwo/core_utilities/tools.py"
     text = src(path)
     f = find_function(ast.parse(text), "scale")
+    expect_decorators(f, [], "scale")
     params = [ident(a.arg) for a in f.args.args]
     tr = Tr("F", result="value")
     body = tr.block(strip_doc(f.body), lambda: (_ for _ in ()).throw(Untranslatable("function body falls off the end")))
@@ -516,6 +531,7 @@ def kernel_segment_area():
     path = "mutwo/core_events/envelopes.py"
     text = src(path)
     f = find_function(ast.parse(text), "Envelope.integrate_interval")
+    expect_decorators(f, [], "Envelope.integrate_interval")
     loops = [n for n in strip_doc(f.body) if isinstance(n, ast.For)]
     if len(loops) != 1:
         raise Untranslatable("integrate_interval: expected exactly one loop")
@@ -560,6 +576,7 @@ def loop_kernel(qual, header, unpack, name, params, call, remove, optional=()):
     path = "mutwo/core_events/basic.py"
     text = src(path)
     f = find_function(ast.parse(text), qual)
+    expect_decorators(f, [], qual)
     loops = [n for n in ast.walk(f) if isinstance(n, ast.For)]
     if len(loops) != 2:
         raise Untranslatable(f"{qual}: expected the child loop and the deletion loop")
@@ -592,7 +609,23 @@ def kernel_cut_off_step():
                        "event_to_delete_list", optional=("t1",))
 
 
+def kernel_tempo_seconds():
+    """Tempo.seconds: the beat length every conversion starts from (a plain property: read afresh on every access)"""
+    path = "mutwo/core_parameters/abc.py"
+    text = src(path)
+    f = find_function(ast.parse(text), "Tempo.seconds")
+    expect_decorators(f, ["property"], "Tempo.seconds")
+    if [a.arg for a in f.args.args] != ["self"]:
+        raise Untranslatable("Tempo.seconds: unexpected signature")
+    tr = Tr("F", result="value", self_fields=("bpm",))
+    body = tr.block(strip_doc(f.body), lambda: (_ for _ in ()).throw(Untranslatable("function body falls off the end")))
+    code = HEADER_F.format(path=path, qual="Tempo.seconds", sha=fsha(f, text))
+    code += f"\n  Definition K_tempo_seconds (self_bpm : F) : res F :=\n{indent(body, 4)}.\nEnd K.\n"
+    return "K_tempo_seconds", code
+
+
 KERNELS = {
+    "K_tempo_seconds": kernel_tempo_seconds,
     "K_cut_out_step": kernel_cut_out_step,
     "K_cut_off_step": kernel_cut_off_step,
     "K_chronon_cut_out": lambda: kernel_chronon("cut_out"),
